@@ -381,15 +381,15 @@ def stageInterface (cd : ClassDesc) (names : List String) (n : Nat) (h : Heap) :
            [("lags", .imm (.tag "LAGS")), ("leads", .imm (.tag "LEADS"))])
 
 /-- Stage 5: `BaseModel.__init__` / `BaseLinker.__init__`: `add_attribute('endogenous', self.ENDOGENOUS)`,
-    `add_attribute('check', self.CHECK)`. -/
-def stageModel (fix : Bool) (cd : ClassDesc) (h : Heap) : Heap × List (String × Val) :=
+    `add_attribute('check', self.CHECK)`; `ve` / `vc` are the values of `self.ENDOGENOUS` / `self.CHECK`. -/
+def stageModel (fix : Bool) (cd : ClassDesc) (ve vc : Val) (h : Heap) : Heap × List (String × Val) :=
   if cd.base = .container then (h, [])
   else if fix then
-    (h ++ [freshCopyOf h (classAttr h cd "ENDOGENOUS") .list, freshCopyOf h (classAttr h cd "CHECK") .list],
+    (h ++ [freshCopyOf h ve .list, freshCopyOf h vc .list],
      [("endogenous", .ref h.length), ("check", .ref (h.length + 1))] ++
        (if cd.base = .model then [("engine", .imm (.str "python"))] else []))
   else
-    (h, [("endogenous", classAttr h cd "ENDOGENOUS"), ("check", classAttr h cd "CHECK")] ++
+    (h, [("endogenous", ve), ("check", vc)] ++
         (if cd.base = .model then [("engine", .imm (.str "python"))] else []))
 
 /-- Stage 6: `TracerMixin.__init__` (after `super().__init__`). -/
@@ -410,7 +410,7 @@ def modelNames (h : Heap) (cd : ClassDesc) : List String :=
 /-- `cls(span, …)` up to (not including) the allocation of the instance `__dict__` itself. -/
 def construct (fix : Bool) (cd : ClassDesc) (h : Heap) (span sub : Val) : Heap × List (String × Val) :=
   thread (stageTracer cd (spanLen h span))
-    (thread (stageModel fix cd)
+    (thread (stageModel fix cd (classAttr h cd "ENDOGENOUS") (classAttr h cd "CHECK"))
       (thread (stageInterface cd (modelNames h cd) (spanLen h span))
         (thread (stageContainer cd (modelNames h cd) span)
           (thread (fun h0 => (h0, stageLinker cd sub))
